@@ -76,7 +76,20 @@ def gen_scenario(seed, idx):
     live_s = nsvc
     for _ in range(rng.choice([6, 12, 20, 30])):
         k = rng.choice(["ann", "ann", "ann", "bye", "query", "browser", "cancel", "lookup", "register", "unregister", "update", "sleep", "sleep",
-                        "hostile", "addr", "txt"])
+                        "hostile", "addr", "txt", "user", "tcq"])
+        if k == "user":
+            # a second user listener comes and (sometimes) goes: blocks `addUser` / `removeUser`
+            steps.append({"op": "user"} if rng.random() < 0.5 else {"op": "unuser", "i": rng.randrange(4)})
+            continue
+        if k == "tcq":
+            # a truncated query (deferred; its timer fires 400-500 ms later: block `tcFire`), sometimes followed by the closing packet
+            src = [rng.choice([PEER, "10.0.0.9"]), rng.choice([5353, 40000])]
+            steps.append({"op": "deliver", "kind": "raw", "src": src,
+                          "data": (B.hdr(rng.randrange(65536), 0x0200, 1) + B.q(B.labels_of(rng.choice([TA, prefix + "1." + TA])), rng.choice([12, 33]))).hex()})
+            steps.append({"op": "sleep", "ms": rng.choice([0, 100, 450, 600])})
+            if rng.random() < 0.4:
+                steps.append({"op": "deliver", "kind": "raw", "src": src, "data": (B.hdr(rng.randrange(65536), 0, 1) + B.q(B.labels_of(TA), 12)).hex()})
+            continue
         if k == "ann":
             steps.append({"op": "deliver", "kind": "ann", "inst": rng.choice(insts), "type": rng.choice(TYPES), "ttl": rng.choice(TTLS),
                           "host_ttl": rng.choice(TTLS), "host": rng.choice(["hx.local.", "hy.local."]), "port": rng.choice([81, 82])})
@@ -318,7 +331,8 @@ def simulate(sc):
                 elif isinstance(listener, inf.ServiceInfo):
                     st["lookups"].append(listener)
                 elif isinstance(listener, RecordUpdateListener):
-                    log("a")
+                    log("a")      # (the snapshot that closes the previous block is taken here: the new user joins the list afterwards)
+                    st["users"].append(listener)
             return orig(self, listener, question)
         return f
 
@@ -333,6 +347,10 @@ def simulate(sc):
                     j = st["lookups"].index(listener)
                     st["lookups"].pop(j)
                     log("f", j=j)
+                elif listener in st["users"]:
+                    i = st["users"].index(listener)
+                    log("d", i=i)
+                    st["users"].pop(i)
             return orig(self, listener)
         return f
 
@@ -341,6 +359,13 @@ def simulate(sc):
             if zc is st["zc"] and zc.started:
                 log("l", name=self.name)
             return await orig(self, zc, timeout, *a, **k)
+        return f
+
+    def w_tc(orig):
+        def f(self, msg, addr, port, transport, v6):
+            if msg is None and st["on"] and not st.get("in_recv"):
+                log("t", addr=addr)       # the timer of a deferred truncated query fired: block `tcFire`
+            return orig(self, msg, addr, port, transport, v6)
         return f
 
     def w_cleanup(orig):
@@ -399,6 +424,8 @@ def simulate(sc):
         patch(rmm.RecordManager, "async_remove_listener", w_reml)
         patch(inf.ServiceInfo, "async_request", w_request)
         patch(eng.AsyncEngine, "_async_cache_cleanup", w_cleanup)
+        import zeroconf._listener as lsm
+        patch(lsm.AsyncListener, "_respond_query", w_tc)
         a = sim.make_host("A", SELF_IP)
         zc = a.zc
         st["zc"] = zc
@@ -410,6 +437,7 @@ def simulate(sc):
             if a.transport is None or a.transport.closed:
                 return
             b = log("r", data=data.hex(), addr=src[0], port=src[1])
+            st["in_recv"] = True
             try:
                 with B.Guard(B.HANG_S):
                     lst.datagram_received(data, src)
@@ -423,7 +451,10 @@ def simulate(sc):
                     b["raised"] = B.exc_name(e)
                 obs["escapes"].append({"exc": B.exc_name(e), "block": len(obs["blocks"]) - 1, "len": len(data), "msg": str(e)[:80]})
                 if not top:
+                    st["in_recv"] = False
                     raise
+            finally:
+                st["in_recv"] = False
 
         a.deliver = lambda data, src: deliver(data, src, top=False)
         infos, tasks, pending = [], [], []
@@ -434,8 +465,10 @@ def simulate(sc):
             try:
                 if op == "user":
                     u = User(step.get("raises"))
-                    st["users"].append(u)
                     zc.async_add_listener(u, None)
+                elif op == "unuser":
+                    if st["users"]:
+                        zc.async_remove_listener(st["users"][step["i"] % len(st["users"])])
                 elif op == "register":
                     addrs = [socket.inet_pton(socket.AF_INET6, x) if ":" in x else socket.inet_aton(x) for x in step.get("addrs", [SELF_IP])]
                     info = ServiceInfo(step["type"], step["name"], step["port"], addresses=addrs, server=step.get("server"),
@@ -555,6 +588,10 @@ def op_line(b):
         return "p %d" % b["t"]
     if o == "a":
         return "a"
+    if o == "d":
+        return "d %d" % b["i"]
+    if o == "t":
+        return "t %s" % hs(b["addr"])
     raise ValueError(o)
 
 
@@ -610,14 +647,14 @@ def judge(obs, sc=None):
     return bad
 
 
-def compare(res, sc, obs, ml):
+def compare(res, sc, obs, ml, stream="c15api"):
     mt = ml.split(" ") if ml else []
     blocks = obs["blocks"]
     for k, b in enumerate(blocks):
         want = impl_summary(b) if "raised" not in b else "error:" + b["raised"]
         got = mt[k] if k < len(mt) else None
         if got is None or (want != got and not (want.startswith("error:") and got.startswith(want))):
-            res.disagree("c15api", {"scenario": sc, "block": k, "op": {x: b[x] for x in b if x not in ("after",)}}, want, (got or ml[:120]))
+            res.disagree(stream, {"scenario": sc, "block": k, "op": {x: b[x] for x in b if x not in ("after",)}}, want, (got or ml[:120]))
             return False
         if "raised" in b:
             return True   # the model does not describe the half-updated state after a raise
@@ -702,18 +739,22 @@ def run_stream(res, ctx, n):
         acc.append((sc, obs))
     if not ctx["driver_ok"] or not acc:
         return
-    lines = ["c15api %d %s" % (len(o["blocks"]), " ".join(op_line(b) for b in o["blocks"])) for _sc, o in acc]
+    # the block log through the closed composite over BOTH downstreams: `down` (scripted routing; `C15_history_closed_partial`) and
+    # `downQ` (per-question routing, known answers, the four answer sets; `C15_history_closedQ_partial` and the third-clause theorems)
+    body = ["%d %s" % (len(o["blocks"]), " ".join(op_line(b) for b in o["blocks"])) for _sc, o in acc]
     try:
-        out = C.run_driver(lines)
+        out = C.run_driver(["c15api " + x for x in body] + ["c15apiq " + x for x in body])
     except C.DriverUnavailable as ex:
         res.notes.append("driver unavailable: %s" % ex)
         return
     nbad = 0
-    for (sc, obs), ml in zip(acc, out):
-        if not compare(res, sc, obs, ml):
-            nbad += 1
-            if nbad >= 5:
-                break
+    for stream, part in (("c15api", out[:len(acc)]), ("c15apiq", out[len(acc):])):
+        for (sc, obs), ml in zip(acc, part):
+            res.count("replayed-over:" + ("down" if stream == "c15api" else "downQ"))
+            if not compare(res, sc, obs, ml, stream):
+                nbad += 1
+                if nbad >= 5:
+                    break
     # the clauses of the composite invariant, evaluated on the states extracted from the real instance
     inv = [(sc, k, line) for sc, o in acc for k, line in o["inv"]]
     try:
